@@ -1,12 +1,12 @@
 #!/bin/sh
 # tools/seed_sweep.sh <seed>... : quick checks of all properties on the unchanged tree for several seeds; alarms are listed
-cd /verif
+cd "$(dirname "$0")/.." || exit 2
 for s in "$@"; do
   for i in 01 02 03 04 05 06 07 08 09 10 11 12 13 14 15 16 17 18 19; do
     out=$(VERIF_SEED=$s bin/check C$i quick 2>&1)
     rc=$?
     echo "seed=$s C$i rc=$rc $(echo "$out" | grep -c '^VIOLATION') violations; $(echo "$out" | tail -1)"
     echo "$out" | grep '^VIOLATION' | head -3
-    if [ $rc -ne 0 ]; then mkdir -p /verif/.sweep_alarms; cp /verif/replays/C$i-quick-$s-*.json /verif/.sweep_alarms/ 2>/dev/null; fi
+    if [ $rc -ne 0 ]; then mkdir -p .sweep_alarms; cp replays/C$i-quick-$s-*.json .sweep_alarms/ 2>/dev/null; fi
   done
 done
